@@ -997,6 +997,8 @@ class SymReal:
     def __round__(s, k=0):
         c = CTX
         k = int(k or 0)
+        if c.opts.get("round_identity"):
+            return s            # harness assumption: the value already lies on the 10^-k grid
         if _is_num(s.e):
             v = _num(s.e)
             return _mk(z3.RealVal(str(Fraction(round(float(v), k)))))
